@@ -45,7 +45,7 @@ ADVERSARIAL = {
 MAX_ENUM = 300
 
 
-PATTERNS = ['parking', 'cumul_units', 'shared_workers', 'work_amounts', None, None, None, None]
+PATTERNS = ['parking', 'cumul_units', 'shared_workers', 'work_amounts', 'namesake_indicators', None, None, None]
 
 
 def small_program(r, k=None):
@@ -95,6 +95,26 @@ def small_program(r, k=None):
         for i in (1, 2):
             ops.append(('OAddRequired', N(i), ('ArgW', ('WPlain', N(1))), dyn, Z(0 if dyn else 1), Z(0 if dyn else 1)))
             ops.append(('OAddRequired', N(i), ('ArgW', ('WPlain', N(2))), False, Z(0), Z(0)))
+        return ops
+    if pat == 'namesake_indicators':
+        # two indicators of the same kind on the same worker (same reported name), a bound declared on one of them: which of the
+        # two is declared first must not matter
+        h = r.choice([4, 5])
+        d = r.choice([2, 3])
+        ops = [('ONewProblem', terms.optZ(h)),
+               ('ONewTask', N(1), ('KFixed', Z(d)), False, Z(0), None, None, False, Z(1)),
+               ('ONewTask', N(2), ('KFixed', Z(1)), r.random() < 0.5, Z(0), None, None, False, Z(1)),
+               ('ONewWorker', N(1), Z(1), ('CostConst', Z(r.choice([0, 2])))),
+               ('OAddRequired', N(1), ('ArgW', ('WPlain', N(1))), False, Z(0), Z(0))]
+        kind = r.choice(['IUtilization', 'INbTasks'])
+        inds = [('ONewIndicator', N(1), (kind, ('ResW', ('WPlain', N(1)))), None),
+                ('ONewIndicator', N(2), (kind, ('ResW', ('WPlain', N(1)))), None)]
+        r.shuffle(inds)
+        ops += inds
+        if kind == 'IUtilization':
+            ops.append(('ONewConstraint', N(1), False, ('CIndBounds', N(r.choice([1, 2])), terms.Some(Z(r.choice([50, 80, 100]))), None)))
+        else:
+            ops.append(('ONewConstraint', N(1), False, ('CIndBounds', N(r.choice([1, 2])), terms.Some(Z(r.choice([1, 2]))), None)))
         return ops
     if pat == 'work_amounts' or (k is None and x4 < 0.2):
         # work amounts: an optional task and a mandatory one, each on its own worker, each with a work amount that decides its
@@ -344,9 +364,13 @@ def observe_case(args):
         rev = list(prog)
         for dst, src in zip(tidx, reversed(tidx)):
             rev[dst] = prog[src]
-        for k3 in range(3):
-            p2, kind = (rev, 'ONewTask reversed') if k3 == 0 else permute_declarations(r, prog)
-            if k3 == 0 and len(tidx) < 2:
+        iidx = [i for i, o in enumerate(prog) if o[0] == 'ONewIndicator']
+        revi = list(prog)
+        for dst, src in zip(iidx, reversed(iidx)):
+            revi[dst] = prog[src]
+        for k3 in range(4):
+            p2, kind = (rev, 'ONewTask reversed') if k3 == 0 else ((revi, 'ONewIndicator reversed') if k3 == 3 else permute_declarations(r, prog))
+            if (k3 == 0 and len(tidx) < 2) or (k3 == 3 and len(iidx) < 2):
                 continue
             if p2 is None:
                 continue
